@@ -200,3 +200,47 @@ Proof.
   replace ((s_tier st * 16) mod 256 + (len cmdb / 256) mod 16) with (s_tier st mod 16 * 16 + len cmdb / 256) by lia.
   rewrite <- !app_assoc. reflexivity.
 Qed.
+
+Lemma nocrc_with_crc s c : ser_section_nocrc (with_crc s c) = ser_section_nocrc s.
+Proof. reflexivity. Qed.
+
+Theorem encode_canonical fs st : normal fs st -> fst (update_data st) = ser_section (logical fs st).
+Proof.
+  intros Hn. unfold update_data. cbn [fst]. unfold logical, ser_section.
+  rewrite nocrc_with_crc. cbn [si_crc with_crc].
+  pose proof (body_canonical fs st Hn) as B. cbv zeta in B. rewrite B. reflexivity.
+Qed.
+
+(* the CRC clause holds for every state: the last four bytes are ComputeCRC of what precedes them *)
+Theorem crc_clause st : exists body,
+  fst (update_data st) = body ++ crc_model body /\ len (crc_model body) = 4.
+Proof. unfold update_data. cbn [fst]. eexists. split; reflexivity. Qed.
+
+Theorem crc_field fs st : normal fs st ->
+  to_be32 (si_crc (logical fs st)) = crc_model (ser_section_nocrc (logical fs st)).
+Proof. intros. reflexivity. Qed.
+
+(* UpdateData changes only SectionLength, spliceCommandLength and data; its output does not depend on them *)
+Theorem encode_idempotent st : fst (update_data (snd (update_data st))) = fst (update_data st).
+Proof. reflexivity. Qed.
+Theorem update_data_stores st : s_data (snd (update_data st)) = fst (update_data st).
+Proof. reflexivity. Qed.
+
+(* lengths: the output is ser_section of the logical record, whose section_length, splice_command_length and
+   descriptor_loop_length fields are by definition the lengths of what follows them (Spec: section_length,
+   cmd_len_field with si_legacy_len = false, to_be16 (len (ser_descriptors ..))); in addition the total length *)
+Theorem lengths_ok fs st : normal fs st ->
+  let L := logical fs st in
+  si_legacy_len L = false /\ cmd_len_field L = len (ser_command (si_cmd L)) /\
+  len (fst (update_data st)) = 3 + section_length L /\ section_length L < 1024.
+Proof.
+  intros Hn L. pose proof (encode_canonical fs st Hn) as E. fold L in E. rewrite E.
+  split; [reflexivity|]. split; [reflexivity|].
+  unfold ser_section, ser_section_nocrc, ser_header, section_length.
+  rewrite !len_app, !len_cons, len_to_be32, len_nil. split; [lia|].
+  destruct Hn as (Htid & Hpv & Hea & Hcw & Htier & Hpts & Hcpts & Hct & Hcmd & Hds & Hother & Hfs & Hlen).
+  rewrite len_ser_body'. unfold L, logical, logical0. cbn [with_crc si_cmd si_descs si_stuffing].
+  rewrite <- cmd_data_ser by assumption.
+  rewrite ser_descriptors_app, <- Hother, <- descs_data_ser by assumption. rewrite len_repeatN.
+  rewrite len_app in *. lia.
+Qed.
